@@ -222,11 +222,12 @@ def lines_obligation(rep: Report):
         rep.undecided("C11.lines.fresh_read", "ambient", desc, "frames", "Tokenizer.get_lines not found")
         return
     calls = [n for n in ast.walk(fn) if isinstance(n, ast.Call)]
-    opens = [n for n in calls if isinstance(n.func, ast.Name) and n.func.id == "open"]
+    opens = [n for n in calls if (isinstance(n.func, ast.Name) and n.func.id == "open")
+             or (isinstance(n.func, ast.Attribute) and n.func.attr == "open" and ast.unparse(n.func.value).split(".")[0] not in ("linecache", "tokenize", "codecs", "os"))]
     foreign = [ast.unparse(n)[:70] for n in calls if isinstance(n.func, ast.Attribute) and isinstance(n.func.value, ast.Name)
-               and n.func.value.id in ("linecache", "functools", "tokenize", "io", "codecs", "os", "pathlib")]
+               and n.func.value.id in ("linecache", "functools", "tokenize", "codecs", "os") and n not in opens]
     deco = [ast.unparse(d) for d in fn.decorator_list]
-    ok = len(opens) == 1 and opens[0].args and ast.unparse(opens[0].args[0]) == "self._path" and not foreign and not deco
+    ok = len(opens) == 1 and "self._path" in ast.unparse(opens[0]) and not foreign and not deco
     if ok:
         rep.ok("C11.lines.fresh_read", "ambient", desc, "frames", function=f"{rel}:Tokenizer.get_lines")
     else:
